@@ -150,9 +150,23 @@ def build(c):
     pl = mk_phase_list(c["pl"])
     before = None if pl is None else entries_of(pl)
     kw = {} if all(c["mask"]) else {"is_in_data": np.array(c["mask"], bool)}
-    xm = CrystalMap(Rotation.identity((n,)), phase_id=np.array(c["pid"]), x=x, y=y, phase_list=pl,
+    xm = CrystalMap(point_rotations(n, c.get("rpp", 1)), phase_id=np.array(c["pid"]), x=x, y=y, phase_list=pl,
                     prop={k: np.array(v) for k, v in c["props"].items()}, **kw)
     return xm, pl, before
+
+
+def point_rotation_data(ids, k=0):
+    """the quaternion of rotation number `k` of the points `ids`: a rotation about z by 0.01 (1 + 4 id + k) rad"""
+    a = 0.01 * (1 + 4 * np.asarray(ids, float) + k)
+    return np.stack([np.cos(a / 2), 0 * a, 0 * a, np.sin(a / 2)], axis=-1)
+
+
+def point_rotations(n, rpp):
+    """`rpp` distinguishable rotations per point (shape (n,) for one, (n, rpp) otherwise)"""
+    from orix.quaternion import Rotation
+    if rpp == 1:
+        return Rotation(point_rotation_data(np.arange(n)))
+    return Rotation(np.stack([point_rotation_data(np.arange(n), k) for k in range(rpp)], axis=1))
 
 
 def apply_op(xm, views, o):
@@ -420,6 +434,12 @@ def invariant(xm, views, where):
                 r, e = try_(lambda: v.orientations.symmetry.name)
                 if e is not None or r != ph.point_group.name:
                     return f"{where}: selection {j} is single-phase ({pres[0]}) but orientations carry {r} {e or ''}"
+                # … and are the (best-matching, i.e. first) rotation of each selected point
+                od, e = try_(lambda: np.asarray(v.orientations.data, float).reshape(-1, 4))
+                want = point_rotation_data(np.asarray(v.id), 0)
+                if e is not None or od.shape != want.shape or np.minimum(np.abs(od - want).max(axis=1), np.abs(od + want).max(axis=1)).max() > 1e-12:
+                    return (f"{where}: orientations of selection {j} (points {np.asarray(v.id).tolist()}) are not the first rotation of "
+                            f"each selected point ({e or ''})")
     return None
 
 
@@ -799,7 +819,8 @@ def gen_case(rng, tier):
     if not any(mask):
         mask[0] = 1
     props = {nm: [int(v) for v in rng.integers(-20, 20, n)] for nm in ["iq", "dp"][:int(rng.integers(0, 3))]}
-    c = {"ny": ny, "nx": nx, "pid": pid, "pid_pattern": pat, "mask": mask, "props": props, "pl": pl, "ops": []}
+    c = {"ny": ny, "nx": nx, "pid": pid, "pid_pattern": pat, "mask": mask, "props": props, "pl": pl, "ops": [],
+         "rpp": int(rng.choice([1, 1, 2, 3]))}
     maxlen = 6 if tier == "quick" else 12
     c["ops"], strata = gen_ops(rng, c, int(rng.integers(1, maxlen + 1)))
     return c, ["construct/" + plst, "ids/" + pat] + strata
